@@ -7,6 +7,7 @@ import (
 	"math/big"
 	"math/rand"
 	"reflect"
+	"sync"
 
 	"github.com/consensys/gnark-crypto/ecc"
 	bn254 "github.com/consensys/gnark-crypto/ecc/bn254"
@@ -229,6 +230,51 @@ func init() {
 			r := c10RoundTrip(id, gp, nil)
 			if !r.OK {
 				r.Case = map[string]interface{}{"vectors": []c10Vector{v}}
+			}
+			emit(r)
+		}
+		// the codec is a pure function: overlapping Marshal / Unmarshal calls (several /prove responses finishing together) must each
+		// produce what a call running alone produces
+		{
+			var all []groth16.Proof
+			for _, a := range pools.g1 {
+				for _, b := range pools.g2 {
+					if gp, err := proofFromPoints(a, b, a); err == nil {
+						all = append(all, gp)
+					}
+				}
+			}
+			ref := make([]string, len(all))
+			for i, gp := range all {
+				js, _ := json.Marshal(&prover.Proof{Proof: gp})
+				ref[i] = string(js)
+			}
+			var wg sync.WaitGroup
+			var mu sync.Mutex
+			bad := ""
+			for g := 0; g < 32; g++ {
+				wg.Add(1)
+				go func(g int) {
+					defer wg.Done()
+					for it := 0; it < 60; it++ {
+						i := (g*7 + it) % len(all)
+						js, err := json.Marshal(&prover.Proof{Proof: all[i]})
+						var back prover.Proof
+						uerr := json.Unmarshal([]byte(ref[i]), &back)
+						if err != nil || string(js) != ref[i] || uerr != nil {
+							mu.Lock()
+							if bad == "" {
+								bad = fmt.Sprintf("concurrent json.Marshal of proof %d gives %s (err=%v, unmarshal err=%v), alone it gives %s", i, string(js), err, uerr, ref[i])
+							}
+							mu.Unlock()
+						}
+					}
+				}(g)
+			}
+			wg.Wait()
+			r := Result{ID: "concurrent-codec", OK: bad == "", Kind: "proof-roundtrip-concurrent", Detail: bad}
+			if bad != "" {
+				r.Case = map[string]interface{}{"vectors": []c10Vector{}, "real": 0}
 			}
 			emit(r)
 		}
